@@ -58,3 +58,11 @@ Definition eligible (own : N) (sender : option N) (t : table) (q : peer) : Prop 
 (* number of known contacts at least as close to the own id as p *)
 Definition at_least_as_close (own : N) (t : table) (p : peer) : nat :=
   length (filter (fun c => dist own (pid c) <=? dist own (pid p)) (contacts t)).
+
+(* s is exactly the c nearest eligible contacts in ascending order *)
+Definition exact_closest (own : N) (sender : option N) (t : table) (key : N) (c : nat) (s : list peer) : Prop :=
+  ascending key s /\
+  (forall q, In q s -> eligible own sender t q) /\
+  (forall q y, eligible own sender t q -> ~ In q s -> In y s -> dist key (pid y) < dist key (pid q)) /\
+  (exists cands, NoDup cands /\ (forall q, In q cands <-> eligible own sender t q) /\
+                 length s = Nat.min c (length cands)).
